@@ -1,6 +1,7 @@
 package main
 
 import (
+	"strings"
 	"fmt"
 
 	sio "github.com/pip-services3-gox/pip-services3-expressions-gox/io"
@@ -180,6 +181,103 @@ func genC11(g *Gen) {
 		}
 	})
 
+	// long contents (sizes around powers of two), read through and walked back
+	rl := g.Rand()
+	for _, sz := range []int{63, 64, 65, 127, 128, 129, 255, 256, 257, 1023, 1024, 1025} {
+		if sz > g.Pick(130, 1025) {
+			continue
+		}
+		content := make([]rune, sz)
+		for j := range content {
+			switch rl.Intn(8) {
+			case 0:
+				content[j] = '\n'
+			case 1:
+				content[j] = '\r'
+			default:
+				content[j] = rune('a' + rl.Intn(26))
+			}
+		}
+		seg := []Ev{{"op": "new", "content": cpsR(content)}}
+		for j := 0; j < sz+2; j++ {
+			seg = append(seg, Ev{"op": "read"})
+			if rl.Intn(6) == 0 {
+				seg = append(seg, Ev{"op": "unreadmany", "n": rl.Intn(5)}, Ev{"op": "read"})
+			}
+		}
+		for j := 0; j < 40; j++ {
+			seg = append(seg, Ev{"op": "unreadmany", "n": rl.Intn(sz/8 + 2)}, Ev{"op": "read"}, Ev{"op": "unread"})
+		}
+		g.Run("long contents", seg)
+	}
+	// rare code points next to line breaks: read through, walked back one by one, read again
+	for _, c := range rareRunes {
+		if c == '\n' || c == '\r' {
+			continue
+		}
+		content := []rune{'a', c, 'b', '\n', c, c, '\r', '\n', c, '\r', c, '\n', '\r', c}
+		seg := []Ev{{"op": "new", "content": cpsR(content)}}
+		for j := 0; j <= len(content)+1; j++ {
+			seg = append(seg, Ev{"op": "read"})
+		}
+		for j := 0; j <= len(content)+1; j++ {
+			seg = append(seg, Ev{"op": "unread"})
+		}
+		for j := 0; j < len(content); j++ {
+			seg = append(seg, Ev{"op": "read"}, Ev{"op": "read"}, Ev{"op": "unread"})
+		}
+		g.Run("rare code points next to line breaks", seg)
+	}
+	// a line break (each of the four styles) at every offset around the multiples of 64 of a long content
+	var offs []int
+	if g.Thorough() {
+		for p := 0; p < 300; p++ {
+			offs = append(offs, p)
+		}
+	} else {
+		offs = []int{63, 64, 127, 128, 255, 256}
+	}
+	for _, p := range offs {
+		for bi, br := range [][]rune{{'\n', '\r'}, {'\r', '\n'}, {'\n'}, {'\r'}} {
+			if !g.Thorough() && bi >= 2 && p%64 != 63 {
+				continue
+			}
+			content := []rune(strings.Repeat("ab", 160))[:p+12]
+			copy(content[p:], br)
+			copy(content[p+5:], []rune{'\n', 'x', '\r'}) // later line breaks to step back over
+			seg := []Ev{{"op": "new", "content": cpsR(content)}}
+			for j := 0; j <= len(content); j++ {
+				seg = append(seg, Ev{"op": "read"})
+			}
+			for j := 0; j <= len(content); j++ {
+				seg = append(seg, Ev{"op": "unread"})
+				if j%50 == 49 {
+					seg = append(seg, Ev{"op": "read"}, Ev{"op": "unread"})
+				}
+			}
+			g.Run("a line break at every offset around the multiples of 64", seg)
+		}
+	}
+	// multi-unread by large counts, from the end-of-input slot and from the middle
+	for _, sz := range []int{63, 64, 65, 99, 130, 257} {
+		if sz > g.Pick(100, 300) {
+			continue
+		}
+		for _, n := range []int{62, 63, 64, 65, 70, 98, 99, 100, 104, 127, 128, 129, 130, 131, 256, 257, 258, 1000} {
+			if n > sz+8 && n != 1000 {
+				continue
+			}
+			for _, past := range []int{1, 0, 3} {
+				content := []rune(strings.Repeat("abc\nde\r\n", 40))[:sz]
+				seg := []Ev{{"op": "new", "content": cpsR(content)}}
+				for j := 0; j < sz+past; j++ {
+					seg = append(seg, Ev{"op": "read"})
+				}
+				seg = append(seg, Ev{"op": "unreadmany", "n": n}, Ev{"op": "read"}, Ev{"op": "read"}, Ev{"op": "unreadmany", "n": 2}, Ev{"op": "read"})
+				g.Run("multi-unread by large counts", seg)
+			}
+		}
+	}
 	// random walks
 	r := g.Rand()
 	walks := g.Pick(150, 8000)
